@@ -17,7 +17,7 @@ func init() { Register(c15{}) }
 
 func (c15) Name() string { return "c15" }
 func (c15) Rule() string {
-	return "one generated world per run (workspace or not; main.journal including a.journal and b.journal; >= 2 commodities out of balance in one transaction; payees shared between files with different posting templates; accounts, tags and dates with equal usage counts; 2..3 open documents) and one fixed script of requests (completion in account/payee/commodity/tag/date context, hover, definition, references, rename, documentSymbol, workspace/symbol, inlineCompletion, formatting, semanticTokens, foldingRange), each request issued twice; in 40% of the runs the root journal first drops its include lines and takes them back (both included files re-enter the tree with one edit). The script runs on V fresh servers (V = 6 quick, 16 thorough): variant 0 with canonical (sorted) map iteration and sequential scheduling, the others with a seeded permutation of EVERY map iteration of the repository's code (and sync.Map.Range) and a seeded background schedule. Oracle: the canonical serialisation of everything the client received at quiescent points (each response, last diagnostics per URI including message text) is identical across variants and between the two repetitions. On a mismatch the permutation is narrowed to single range sites to name the culprit statements. Non-trivial: >= 1 variant applied a permutation at a site that was reached. Distinct: hash of the world + set of sites permuted."
+	return "one generated world per run (workspace or not; main.journal including a.journal and b.journal; >= 2 commodities out of balance in one transaction; payees shared between files with different posting templates; accounts, tags and dates with equal usage counts; 2..3 open documents) and one fixed script of requests (completion in account/payee/commodity/tag/date context, hover, definition, references, rename, documentSymbol, workspace/symbol, inlineCompletion, formatting, semanticTokens, foldingRange), each request issued twice; in 40% of the runs the root journal first drops its include lines and takes them back (both included files re-enter the tree with one edit), and in half of the non-canonical variants documents reach their contents by another legal route (open, close unsaved, open again; open with other text and change to the contents at once). The script runs on V fresh servers (V = 6 quick, 16 thorough): variant 0 with canonical (sorted) map iteration and sequential scheduling, the others with a seeded permutation of EVERY map iteration of the repository's code (and sync.Map.Range) and a seeded background schedule. Oracle: the canonical serialisation of everything the client received at quiescent points (each response, last diagnostics per URI including message text) is identical across variants and between the two repetitions. On a mismatch the permutation is narrowed to single range sites to name the culprit statements. Non-trivial: >= 1 variant applied a permutation at a site that was reached. Distinct: hash of the world + set of sites permuted."
 }
 func (c15) Enumerated(string) int           { return 0 }
 func (c15) Components() ([]string, []string) { return serverComponents() }
@@ -138,6 +138,7 @@ type c15variant struct {
 	policy int
 	chunk  bool
 	flap   bool // the root journal drops its include lines and takes them back before the requests
+	routes bool // documents may reach their contents by another route (close and re-open, open with other text then change)
 }
 
 // c15Transcript runs the script on a fresh server.
@@ -165,7 +166,28 @@ func c15Transcript(ctx *RunCtx, c *simrt.Chooser, env *Env, root string, docs []
 	}
 	d.Notify("initialized", J{})
 	for _, doc := range docs {
-		d.Notify("textDocument/didOpen", J{"textDocument": J{"uri": doc.URI, "languageId": "hledger", "version": 1, "text": doc.Text}})
+		// the canonical variant opens every document once; the others may reach
+		// the same contents by another legal route
+		route := 0
+		if v.routes {
+			route = c.Choose("route", 3)
+		}
+		switch route {
+		case 1: // open, close without saving, open again
+			d.Notify("textDocument/didOpen", J{"textDocument": J{"uri": doc.URI, "languageId": "hledger", "version": 1, "text": doc.Text}})
+			d.PumpN(c.Choose("steps", 12))
+			d.Notify("textDocument/didClose", J{"textDocument": docID(doc.URI)})
+			d.PumpN(c.Choose("steps", 12))
+			d.Notify("textDocument/didOpen", J{"textDocument": J{"uri": doc.URI, "languageId": "hledger", "version": 1, "text": doc.Text}})
+		case 2: // open with an unbalanced line in front, then change to the contents
+			d.Notify("textDocument/didOpen", J{"textDocument": J{"uri": doc.URI, "languageId": "hledger", "version": 1, "text": "2024-01-01 draft\n    assets:bank  10 EUR\n    expenses:food  -7 EUR\n\n" + doc.Text}})
+			if c.Bool("steps-before-change") {
+				d.PumpN(c.Choose("steps", 12))
+			}
+			d.Notify("textDocument/didChange", J{"textDocument": J{"uri": doc.URI, "version": 2}, "contentChanges": []J{{"text": doc.Text}}})
+		default:
+			d.Notify("textDocument/didOpen", J{"textDocument": J{"uri": doc.URI, "languageId": "hledger", "version": 1, "text": doc.Text}})
+		}
 		if v.policy != PolBgFirst {
 			d.PumpN(c.Choose("steps", 12))
 		}
@@ -261,7 +283,7 @@ func (c15) Run(ctx *RunCtx) {
 	}
 	permutedReached := false
 	for v := 1; v <= nv; v++ {
-		variant := c15variant{salt: uint64(1 + c.Choose("salt", 1<<20)), policy: c.Choose("policy", numPolicies), chunk: false, flap: flap}
+		variant := c15variant{salt: uint64(1 + c.Choose("salt", 1<<20)), policy: c.Choose("policy", numPolicies), chunk: false, flap: flap, routes: c.Pct("routes", 50)}
 		mode := "all sites"
 		if len(sites) > 0 && c.Pct("single-site", 30) {
 			variant.only = sites[c.Choose("site", len(sites))]
